@@ -88,5 +88,4 @@ void tree_dump(OUT* o, CMR_SEYMOUR_NODE* node)
 OPDEF ops_tree[] = {
   { NULL, NULL }
 };
-OPDEF ops_graph[] = { { NULL, NULL } };
 OPDEF ops_sepa[] = { { NULL, NULL } };
